@@ -26,7 +26,10 @@ Record req := {
   q_self : bool;          (* Litefs-Id header names the receiving node itself *)
   q_h2 : bool;            (* HTTP/2 (h2c) rather than HTTP/1.1 *)
   q_body : bool;          (* the body is what the endpoint expects (position map / SQLite image / next LTX file) *)
-  q_halted : bool         (* a halt lock is currently held on the known database *)
+  q_halted : bool;        (* a halt lock is currently held on the known database *)
+  q_poison : bool         (* /tx only, and only when the body is not usable: the file continues the position (right
+                             transaction id, right pre-apply checksum, right page size, intact file checksum) but its
+                             post-apply checksum is not that of the database it produces *)
 }.
 Definition mk_req := Build_req.
 
@@ -39,7 +42,9 @@ Inductive effect :=
 | EApplyTx         (* forwarded transaction applied *)
 | EImport
 | EHandoff         (* lease handed to a connected replica *)
-| EPromote.        (* this node asks the primary for the lease *)
+| EPromote         (* this node asks the primary for the lease *)
+| EStop.           (* the file is in the log, its pages are in the database, the position is the old one and the node has
+                      stopped itself (Exit 99): ApplyLTXNoLock notices the checksum only after writing *)
 
 Definition is_primary (q : req) : bool := match q_role q with RPrimary => true | _ => false end.
 (* the replica of the rig is not a candidate; the other two nodes are *)
@@ -114,7 +119,7 @@ Definition handle_tx (q : req) : N * effect :=
   else if id_unparsable q then (400, ENone)
   else if negb (is_primary q) then (503, ENone)
   else if negb (holds_lock q) then (409, ENone)
-  else if q_body q then (200, EApplyTx) else (500, ENone).
+  else if q_body q then (200, EApplyTx) else if q_poison q then (500, EStop) else (500, ENone).
 
 Definition method_not_allowed : N * effect := (405, ENone).
 
@@ -186,6 +191,15 @@ Definition import_leftover (q : req) : bool :=
   match q_path q, q_meth q, q_role q, q_name q with
   | PImport, MPost, RPrimary, NmUnknown => negb (q_body q)
   | _, _, _, _ => false
+  end.
+
+(* ... and the second one: the holder of the halt lock forwards a file that continues the position but carries a wrong
+   post-apply checksum *)
+Definition tx_poisoned (q : req) : bool :=
+  match q_path q, q_meth q with
+  | PTx, MPost => negb (q_self q) && name_is_known q && negb (id_unparsable q) && is_primary q && holds_lock q &&
+                  negb (q_body q) && q_poison q
+  | _, _ => false
   end.
 
 Definition changes (e : effect) : bool := match e with ENone => false | _ => true end.
